@@ -192,6 +192,16 @@ NEEDS5 = {
     'C20/2': ('Map visit_map returns Err unless access.size_hint() == Some(m.len()) after the loop', 'a deserializer whose size_hint() is None: every map is rejected'),
 }
 
+NEEDS6 = {
+    'C19/1': ('Debug for Values takes f.precision() many pending values', 'a precision in the format spec ({:.1?}): entries silently dropped'),
+    'C19/2': ('Debug for IntoIter lists pairs[..=len.saturating_sub(1)] reversed', 'an exhausted (or never filled) by-value iterator: slot 0 -- already yielded or uninitialised -- is shown'),
+    'C19/3': ('Display for Map through debug_map().entries() and a Display-forwarding wrapper', '{:#} switches to the multi-line layout; width / precision applied to every key and value (text only)'),
+    'C19/4': ('Debug for Intersection lists other.get(item) for the common elements', 'elements that compare equal but are distinguishable in Debug: the other operand\'s copies are shown'),
+    'C19/5': ('Display for Set: the separator flag toggles instead of clearing', 'three or more elements: every odd-indexed separator from the third element on is dropped (text only)'),
+    'C19/6': ('Display for Map zips the entries with once("").chain(once(", "))', 'three or more entries: everything from the third entry on is omitted'),
+}
+
+
 def main():
     os.makedirs(DST, exist_ok=True)
     rows = []
@@ -204,6 +214,8 @@ def main():
         rounds.append((NEEDS4, '/tmp/seed/out4', sys.argv[4], 6))
     if len(sys.argv) > 5:
         rounds.append((NEEDS5, '/tmp/seed/out5', sys.argv[5], 8))
+    if len(sys.argv) > 6:
+        rounds.append((NEEDS6, '/tmp/seed/out6', sys.argv[6], 0))
     for needs, OUTD, RESD, off in rounds:
         rows += one_round(needs, OUTD, RESD, off)
     for r in rows:
